@@ -15,12 +15,13 @@ Import ListNotations RecordSetNotations.
        the snapshot is the registry content, the registry lock is held until the shutdown has returned). *)
 Definition byapi_of (o : obs) (th : tid) : bool :=
   match get th (o_api o) with Some OpRun | None => false | Some _ => true end.
+Definition is_run (o : obs) (th : tid) : bool := match get th (o_api o) with Some OpRun => true | _ => false end.
 Definition snap_of (o : obs) (th : tid) : list iid := match get th (o_sd_cur o) with Some l => l | None => [] end.
 Definition begun (o : obs) (i : iid) : bool := existsb (fun q => N.eqb (snd q) i) (o_th o).
 Definition excused (o : obs) (i : iid) (xo : oinst) : bool := o_byapi xo && negb (o_insnap xo) && negb (begun o i).
 Definition escape_C03 (o : obs) (te : tid * event) : bool :=
   match snd te with
-  | ENewInst i n => Nat.ltb 0 (o_sd_done o) && negb (byapi_of o (fst te))
+  | ENewInst i n => Nat.ltb 0 (o_sd_done o) && is_run o (fst te)
   | EShutdownEnd => existsb (fun p => negb (memN (fst p) (snap_of o (fst te))) && negb (o_gone (snd p)) &&
                                       negb (excused o (fst p) (snd p))) (oi o)
   | _ => false
@@ -77,6 +78,211 @@ Proof.
        (split; [first [left; reflexivity | right; apply opt_eqb_N_eq; assumption]|auto; try (intros; discriminate)]).
   all: destruct s1; cbn; intros; discriminate.
 Qed.
+
+(* ---- API calls: the model's program counter and the observer's o_api agree -------------------------------------- *)
+Definition api_rel (a : apipc) (oa : option apiop) : bool :=
+  match a with
+  | ARun _ => match oa with Some OpRun => true | _ => false end
+  | AStart _ | AStartSpawn _ | ARestart _ | ARestartStopping _ _ | ARestartSpawn _ =>
+      match oa with Some OpRun | None => false | Some _ => true end
+  | _ => true
+  end.
+Definition oa_next (e : event) (oa : option apiop) : option apiop :=
+  match e with EApiBegin op => Some op | EApiReturn _ => None | _ => oa end.
+
+Lemma step_core_apc s th e s' : step_core s th e = Some s' ->
+  (forall th', th' <> th -> apc (get_thread s' th') = apc (get_thread s th')) /\
+  forall oa, api_rel (apc (get_thread s th)) oa = true -> api_rel (apc (get_thread s' th)) (oa_next e oa) = true.
+Proof.
+  intros H. unfold step_core in H. destruct e; kind_cases H.
+  all: try match goal with |- context[match dpc ?t with _ => _ end] => destruct (dpc t) as [| | |? [|? ?]| |] end.
+  all: split; [intros th' Hne; unfold set_pc, end_finish; autorewrite with sup;
+               try rewrite (proj2 (N.eqb_neq th th')) by congruence;
+               repeat match goal with |- context[if ?b then _ else _] => destruct b end; autorewrite with sup;
+               try rewrite (proj2 (N.eqb_neq th th')) by congruence; reflexivity|].
+  all: intros oa; unfold set_pc, end_finish; autorewrite with sup; rewrite ?N.eqb_refl; cbn [oa_next apc];
+       repeat match goal with |- context[if ?b then _ else _] => destruct b end; autorewrite with sup; rewrite ?N.eqb_refl; cbn;
+       repeat match goal with E : apc _ = _ |- _ => rewrite E; clear E end; cbn; auto.
+  1-3: destruct found; cbn; auto.
+  destruct (apc (get_thread s th)); cbn; auto.
+Qed.
+
+Lemma oi_upd_o_api i f o : o_api (oi_upd i f o) = o_api o. Proof. now apply (oi_upd_proj o_api). Qed.
+Lemma on_upd_o_api i f o : o_api (on_upd i f o) = o_api o. Proof. now apply (on_upd_proj o_api). Qed.
+Lemma note_late_o_api o i : o_api (note_late_commit o i) = o_api o.
+Proof. unfold note_late_commit. destruct (o_stopreq _); [destruct (stopping o i)|]; reflexivity. Qed.
+#[export] Hint Rewrite oi_upd_o_api on_upd_o_api note_late_o_api : obsf.
+
+Lemma obs_pre_api cs o th e th' :
+  get th' (o_api (obs_pre cs o (th, e))) = if N.eqb th th' then oa_next e (get th (o_api o)) else get th' (o_api o).
+Proof.
+  assert (Hsame : o_api (obs_pre cs o (th, e)) = o_api o ->
+                  match e with EApiBegin _ | EApiReturn _ => False | _ => True end ->
+                  get th' (o_api (obs_pre cs o (th, e))) = if N.eqb th th' then oa_next e (get th (o_api o)) else get th' (o_api o)).
+  { intros -> He. destruct (N.eqb_spec th th'); [subst|reflexivity]. destruct e; try contradiction; reflexivity. }
+  destruct e; try (apply Hsame; [|exact I]; obs_cases o th; try reflexivity;
+                   repeat match goal with |- context[if ?b then _ else _] => destruct b end; cbn; autorewrite with obsf; try reflexivity;
+                   fold_proj o_api; reflexivity).
+  - cbn. apply get_set.
+  - cbn. rewrite get_del. destruct (N.eqb th th'); reflexivity.
+Qed.
+
+
+(* ---- registry, creation stage, registry lock: which events touch them ------------------------------------------- *)
+Definition reg_ev (e : event) : bool :=
+  match e with ENewInst _ _ | EState _ _ | ERegAdd _ _ | ERegDel _ | ESpawn _ _ | EBegin _ | EShutdownBegin => true | _ => false end.
+
+Lemma step_core_regs s th e s' : step_core s th e = Some s' -> reg_ev e = false ->
+  running s' = running s /\ stage s' = stage s /\ thinst s' = thinst s /\ reg_lock s' = reg_lock s.
+Proof.
+  intros H He. unfold step_core in H. destruct e; try discriminate He; kind_cases H.
+  all: try match goal with |- context[match dpc ?t with _ => _ end] => destruct (dpc t) as [| | |? [|? ?]| |] end.
+  all: unfold set_pc, end_finish, write_status, upd_inst, upd_vis; cbn;
+       repeat match goal with |- context[match ?x with _ => _ end] => destruct x; cbn end; try (repeat split; reflexivity).
+  fold (upd_inst). 
+  assert (G : forall l s0, let s1 := fold_left (fun s i => match get i (insts s) with Some x => s <| insts := set i (x <| f_stopped := true |>) (insts s) |> | None => s end) l s0 in
+               running s1 = running s0 /\ stage s1 = stage s0 /\ thinst s1 = thinst s0 /\ reg_lock s1 = reg_lock s0).
+  { induction l as [|a l IH]; intros s0; cbn; [repeat split|]. destruct (get a (insts s0)); [|apply IH].
+    destruct (IH (s0 <| insts := set a (i <| f_stopped := true |>) (insts s0) |>)) as (A & B & C & D). cbn in *. auto. }
+  apply G.
+Qed.
+
+Lemma flush_stage th s : stage (flush th s) = stage s.
+Proof.
+  unfold flush. destruct (get th (threads s)) as [t|]; [|reflexivity]. destruct (pend t) as [r|]; [|reflexivity].
+  destruct r; unfold apply_release, end_release_early, upd_inst, set_thread; cbn;
+  repeat match goal with |- context[match ?x with _ => _ end] => destruct x; cbn end; reflexivity.
+Qed.
+Lemma flush_reg_lock th s :
+  reg_lock (flush th s) = match pend (get_thread s th) with Some RUnlock => None | _ => reg_lock s end.
+Proof.
+  unfold flush, get_thread. destruct (get th (threads s)) as [t|]; [|reflexivity]. destruct (pend t) as [r|]; [|reflexivity].
+  destruct r; unfold apply_release, end_release_early, upd_inst, set_thread; cbn;
+  repeat match goal with |- context[match ?x with _ => _ end] => destruct x; cbn end; reflexivity.
+Qed.
+
+Lemma eff_new s th i n s' : step_core s th (ENewInst i n) = Some s' ->
+  get i (insts s) = None /\ running s' = running s /\ thinst s' = thinst s /\ reg_lock s' = reg_lock s /\
+  stage s' = set i (th, 0) (stage s).
+Proof. intros H. unfold step_core in H. kind_cases H. unfold has in *. destruct (get i (insts s)); [discriminate|]. repeat split. Qed.
+Lemma eff_state s th i s0 s' : step_core s th (EState i s0) = Some s' ->
+  running s' = running s /\ thinst s' = thinst s /\ reg_lock s' = reg_lock s /\
+  (stage s' = stage s \/ stage s' = set i (th, 1) (stage s)).
+Proof.
+  intros H. unfold step_core in H. kind_cases H.
+  all: unfold set_pc, end_finish, write_status, upd_inst, upd_vis; cbn;
+       repeat match goal with |- context[match ?x with _ => _ end] => destruct x; cbn end; auto.
+Qed.
+Lemma eff_regadd s th i n s' : step_core s th (ERegAdd i n) = Some s' ->
+  exists x, get i (insts s) = Some x /\ nm x = n /\ gonepc (pc x) = false /\ reg_lock s = None /\
+    running s' = set n i (running s) /\ stage s' = set i (th, 2) (stage s) /\ thinst s' = thinst s /\ reg_lock s' = reg_lock s /\
+    insts s' = insts s.
+Proof.
+  intros H. unfold step_core in H. kind_cases H. split_andb. eexists. split; [reflexivity|]. unfold lock_free in *.
+  destruct (reg_lock s) eqn:El; [discriminate|]. destruct (pc i0); try discriminate. repeat split; auto.
+Qed.
+Lemma eff_regdel s th i s' : step_core s th (ERegDel i) = Some s' ->
+  exists x, get i (insts s) = Some x /\ gonepc (pc x) = true /\
+    running s' = del (nm x) (running s) /\ stage s' = stage s /\ thinst s' = thinst s /\ reg_lock s' = reg_lock s /\ insts s' = insts s.
+Proof.
+  intros H. unfold step_core in H. kind_cases H. eexists. split; [reflexivity|]. split_andb.
+  destruct (pc i0); try discriminate; try (rewrite andb_false_r in *; discriminate). repeat split; auto.
+Qed.
+Lemma eff_spawn s th i n s' : step_core s th (ESpawn i n) = Some s' ->
+  at_stage s th i 2 = true /\ stage s' = set i (th, 3) (stage s) /\ running s' = running s /\ thinst s' = thinst s /\ reg_lock s' = reg_lock s.
+Proof. intros H. unfold step_core in H. kind_cases H; repeat split; auto. Qed.
+Lemma eff_begin s th i s' : step_core s th (EBegin i) = Some s' ->
+  (exists c, get i (stage s) = Some (c, 3)) /\ (exists x, get i (insts s) = Some x) /\
+  thinst s' = set th i (thinst s) /\ stage s' = del i (stage s) /\ running s' = running s /\ reg_lock s' = reg_lock s /\ insts s' = insts s.
+Proof.
+  intros H. unfold step_core in H. break_step H. subst s'.
+  destruct (get i (stage s)) as [[c k]|] eqn:Es; [|discriminate].
+  do 3 (destruct k as [|k]; try discriminate). destruct k; [|discriminate]. repeat split; eauto.
+Qed.
+Lemma eff_sdbegin s th s' : step_core s th EShutdownBegin = Some s' ->
+  reg_lock s = None /\ reg_lock s' = Some th /\ running s' = running s /\ stage s' = stage s /\ thinst s' = thinst s.
+Proof. intros H. unfold step_core in H. kind_cases H. unfold lock_free in *. destruct (reg_lock s) eqn:El; [discriminate|]. repeat split; auto. Qed.
+
+Lemma step_core_unl s th e s' : step_core s th e = Some s' ->
+  forall th', pend (get_thread s' th') = Some RUnlock -> pend (get_thread s th') = Some RUnlock \/ (th' = th /\ e = EShutdownEnd).
+Proof.
+  intros H th'. unfold step_core in H. destruct e; kind_cases H.
+  all: try match goal with |- context[match dpc ?t with _ => _ end] => destruct (dpc t) as [| | |? [|? ?]| |] end.
+  all: unfold set_pc, end_finish; autorewrite with sup;
+       repeat match goal with |- context[if ?b then _ else _] => is_var b; destruct b end; autorewrite with sup; auto.
+  all: try (destruct (N.eqb_spec th th'); [subst th'|]; cbn; auto; try (intros; discriminate); fail).
+  all: destruct (i =? i2)%N; autorewrite with sup; (destruct (N.eqb_spec th th'); [subst th'|]); cbn; auto.
+Qed.
+
+(* ---- "active => registered => in the snapshot" ----------------------------------------------------------------------- *)
+Definition staged2 (s : sys) (i : iid) : bool := match get i (stage s) with Some (_, k) => Nat.leb 2 k | None => false end.
+Definition act (s : sys) (i : iid) : Prop := staged2 s i = true \/ exists t, get t (thinst s) = Some i.
+Definition lockpc (d : sdpc) : bool := match d with DBegun | DLoop _ _ | DWaitAll _ => true | _ => false end.
+Definition snappc (d : sdpc) (order : list iid) : Prop := (exists r, d = DLoop order r) \/ d = DWaitAll order.
+
+Record Inv3 (s : sys) : Prop := mkInv3 {
+  iv_thi : forall t i, get t (thinst s) = Some i -> exists x, get i (insts s) = Some x;
+  iv_reg : forall i x, get i (insts s) = Some x -> act s i -> gonepc (pc x) = false -> get (nm x) (running s) = Some i;
+  iv_lock : forall th, lockpc (dpc (get_thread s th)) = true -> reg_lock s = Some th;
+  iv_unl : forall th, pend (get_thread s th) = Some RUnlock -> dpc (get_thread s th) = DEnded /\ reg_lock s = Some th;
+  iv_snap : forall th order, snappc (dpc (get_thread s th)) order ->
+            forall i x, get i (insts s) = Some x -> act s i -> gonepc (pc x) = false -> memN i order = true }.
+
+Definition ibwd (s s' : sys) : Prop :=
+  forall j x', get j (insts s') = Some x' -> exists x, get j (insts s) = Some x /\ nm x' = nm x /\ (gonepc (pc x) = true -> gonepc (pc x') = true).
+Definition ifwd (s s' : sys) : Prop := forall j x, get j (insts s) = Some x -> exists x', get j (insts s') = Some x'.
+
+Lemma Inv3_same s s' : running s' = running s -> stage s' = stage s -> thinst s' = thinst s -> reg_lock s' = reg_lock s ->
+  ibwd s s' -> ifwd s s' ->
+  (forall th, lockpc (dpc (get_thread s' th)) = true -> lockpc (dpc (get_thread s th)) = true) ->
+  (forall th, pend (get_thread s' th) = Some RUnlock -> pend (get_thread s th) = Some RUnlock /\ dpc (get_thread s' th) = dpc (get_thread s th)) ->
+  (forall th order, snappc (dpc (get_thread s' th)) order -> snappc (dpc (get_thread s th)) order) ->
+  Inv3 s -> Inv3 s'.
+Proof.
+  intros Er Es Et El Hb Hf Hl Hu Hs [A B C D E].
+  assert (Hact : forall i, act s' i -> act s i) by (intros i; unfold act, staged2; rewrite Es, Et; auto).
+  assert (Hng : forall x x', (gonepc (pc x) = true -> gonepc (pc x') = true) -> gonepc (pc x') = false -> gonepc (pc x) = false).
+  { intros x x' Hg Hx'. destruct (gonepc (pc x)); [rewrite Hg in Hx' by reflexivity; discriminate|reflexivity]. }
+  constructor.
+  - intros t i Ht. rewrite Et in Ht. destruct (A t i Ht) as (x & Hx). eauto.
+  - intros i x' Hx' Ha Hg. destruct (Hb i x' Hx') as (x & Hx & En & Hgg). rewrite Er, En. eauto.
+  - intros th Hp. rewrite El. auto.
+  - intros th Hp. destruct (Hu th Hp) as [Hp0 Ed]. rewrite Ed, El. auto.
+  - intros th order Hsn i x' Hx' Ha Hg. destruct (Hb i x' Hx') as (x & Hx & En & Hgg). eapply E; eauto.
+Qed.
+
+Lemma Inv3_init cs ord : Inv3 (init cs ord).
+Proof.
+  constructor; cbn; try discriminate; try (intros th order [[r H]|H]; discriminate).
+Qed.
+
+Lemma Inv3_flush th s : Inv3 s -> Inv3 (flush th s).
+Proof.
+  intros [A B C D E].
+  assert (Hb : ibwd s (flush th s)).
+  { intros j x' Hx'. destruct (flush_bwd _ _ _ _ Hx') as (x & Hx & (En & Ep & _)). exists x. rewrite Ep. auto. }
+  assert (Hact : forall i, act (flush th s) i -> act s i) by (intros i; unfold act, staged2; rewrite flush_stage, flush_thinst; auto).
+  assert (Hth : forall th', dpc (get_thread (flush th s) th') = dpc (get_thread s th') /\
+                            (pend (get_thread (flush th s) th') = Some RUnlock -> th' <> th /\ pend (get_thread s th') = Some RUnlock)).
+  { intros th'. destruct (flush_thread th s th') as (_ & _ & Ed & Ep). split; [exact Ed|]. rewrite Ep.
+    destruct (N.eqb_spec th th'); [discriminate|]. intros Hp. split; [congruence|exact Hp]. }
+  assert (Hlk : forall th', reg_lock s = Some th' -> th' <> th \/ pend (get_thread s th) <> Some RUnlock -> reg_lock (flush th s) = Some th').
+  { intros th' Hl Hc. rewrite flush_reg_lock. destruct (pend (get_thread s th)) as [[]|] eqn:Ep; auto.
+    destruct (D th Ep) as [_ Hl2]. destruct Hc as [Hc|Hc]; congruence. }
+  constructor.
+  - intros t i Ht. rewrite flush_thinst in Ht. destruct (A t i Ht) as (x & Hx). destruct (flush_fwd th _ _ _ Hx) as (x' & Hx' & _). eauto.
+  - intros i x' Hx' Ha Hg. destruct (Hb i x' Hx') as (x & Hx & En & Hgg). rewrite flush_running, En. apply B; auto.
+    destruct (gonepc (pc x)); [rewrite Hgg in Hg by reflexivity; discriminate|reflexivity].
+  - intros th' Hp. destruct (Hth th') as [Ed _]. rewrite Ed in Hp. apply Hlk; [auto|].
+    destruct (N.eq_dec th' th) as [->|Hne]; [|auto]. right. intros Hpe. destruct (D th Hpe) as [Hd _]. rewrite Hd in Hp. discriminate.
+  - intros th' Hp. destruct (Hth th') as [Ed Hp2]. destruct (Hp2 Hp) as [Hne Hp0]. destruct (D th' Hp0) as [Hd Hl].
+    rewrite Ed. split; [exact Hd|]. apply Hlk; auto.
+  - intros th' order Hsn i x' Hx' Ha Hg. destruct (Hth th') as [Ed _]. rewrite Ed in Hsn.
+    destruct (Hb i x' Hx') as (x & Hx & En & Hgg). eapply E; eauto.
+    destruct (gonepc (pc x)); [rewrite Hgg in Hg by reflexivity; discriminate|reflexivity].
+Qed.
+
+
 
 (* ---- observer: o_byapi, o_insnap, o_stopreq ---------------------------------------------------------------------- *)
 Definition oai_le (x x' : oinst) : Prop :=
@@ -136,7 +342,14 @@ Definition aft_ok (o : obs) (i : iid) (x : inst) (xo : oinst) : Prop :=
 Definition c_aft (s : sys) (o : obs) : Prop :=
   0 < o_sd_done o -> forall i x xo, get i (insts s) = Some x -> get i (oi o) = Some xo -> aft_ok o i x xo.
 
-Record Inv2 (s : sys) (o : obs) : Prop := mkInv2 { iv_beg : c_beg s; iv_aft : c_aft s o }.
+Definition c_api (s : sys) (o : obs) : Prop := forall th, api_rel (apc (get_thread s th)) (get th (o_api o)) = true.
+Record Inv2 (s : sys) (o : obs) : Prop := mkInv2 { iv_beg : c_beg s; iv_aft : c_aft s o; iv_api : c_api s o }.
+
+Lemma c_api_core s o th e s' : c_api s o -> step_core s th e = Some s' -> c_api s' (obs_pre cs o (th, e)).
+Proof.
+  intros HP H th'. destruct (step_core_apc _ _ _ _ H) as [Hoth Hth]. rewrite obs_pre_api.
+  destruct (N.eqb_spec th th'); [subst th'; apply Hth, HP|]. rewrite Hoth by congruence. apply HP.
+Qed.
 Definition R4 (s : sys) (o : obs) : Prop := Rc cs s o /\ Inv s o /\ Inv2 s o.
 
 Lemma R4_init ord : R4 (init cs ord) (obs0 cs).
@@ -144,6 +357,7 @@ Proof.
   split; [apply Rc_init|]. split; [apply Inv_init|]. constructor.
   - intros i x H. cbn in H. discriminate.
   - intros H. cbn in H. lia.
+  - intros th. reflexivity.
 Qed.
 
 Lemma aft_ok_mono o o' i x x' xo xo' :
@@ -158,7 +372,7 @@ Qed.
 
 Lemma Inv2_flush th s o : Inv2 s o -> Inv2 (flush th s) o.
 Proof.
-  intros [HB HA]. constructor.
+  intros [HB HA HP]. constructor; [| |intros th'; destruct (flush_thread th s th') as (Ea & _); rewrite Ea; apply HP].
   - intros i x' Hx'. destruct (flush_bwd _ _ _ _ Hx') as (x & Hx & (_ & Ep & _)). rewrite flush_thinst, Ep. eauto.
   - intros Hsd i x' xo Hx' Hxo. destruct (flush_bwd _ _ _ _ Hx') as (x & Hx & (_ & Ep & _ & _ & _ & Hr & _)).
     eapply (aft_ok_mono o o i x x' xo xo); [auto|eapply nl_mono; eauto|apply oai_le_refl|rewrite Ep; auto|eauto].
@@ -166,7 +380,7 @@ Qed.
 
 Lemma Inv2_refresh s o : Inv2 s o -> Inv2 s (refresh_succ o).
 Proof.
-  intros [HB HA]. constructor; [exact HB|].
+  intros [HB HA HP]. constructor; [exact HB| |exact HP].
   intros Hsd i x xo' Hx Hxo'. rewrite refresh_get in Hxo'. destruct (get i (oi o)) as [xo|] eqn:Hxo; [|discriminate].
   cbn in Hxo'. injection Hxo' as <-.
   eapply (aft_ok_mono o (refresh_succ o) i x x xo); [auto|auto| |auto|apply HA; auto].
@@ -176,10 +390,10 @@ Qed.
 Lemma Inv2_own s o th e s' : Rc cs s o -> Inv s o -> Inv2 s o -> step_own s th e = Some s' ->
   W_C03 (obs_pre cs o (th, e)) = false -> Inv2 s' (obs_pre cs o (th, e)).
 Proof.
-  intros HRc HI [HB HA] H HW. pose proof (step_own_ev _ _ _ _ H) as Hev.
+  intros HRc HI [HB HA HP] H HW. pose proof (step_own_ev _ _ _ _ H) as Hev.
   destruct (step_own_mono _ _ _ _ H) as (i & x & x' & Hth & Hx & Hx' & Hoth & En & Ed & Er & Hg & Hnl & Hrp & Hbad & Hthr).
   destruct (step_own_cpc _ _ _ _ H) as [Eti Hcpc].
-  constructor.
+  constructor; [| |eapply c_api_core; [exact HP|rewrite step_core_own by exact Hev; exact H]].
   - intros j y' Hy'. rewrite Eti. destruct (N.eq_dec j i) as [->|Hne]; [right; eauto|]. rewrite (Hoth j Hne) in Hy'. eauto.
   - intros Hsd j y' yo' Hy' Hyo'.
     rewrite obs_pre_sd_done in Hsd by (destruct e; try discriminate Hev; exact I).
@@ -213,9 +427,9 @@ Qed.
 Lemma Inv2_nonown s o th e s' : Rc cs s o -> Inv s o -> Inv2 s o -> step_core s th e = Some s' -> own_ev e = false ->
   W_C03 (obs_pre cs o (th, e)) = false -> escape_C03 o (th, e) = false -> Inv2 s' (obs_pre cs o (th, e)).
 Proof.
-  intros HRc HI [HB HA] H Hev HW Hesc.
+  intros HRc HI [HB HA HP] H Hev HW Hesc.
   pose proof (step_core_thinst _ _ _ _ H Hev) as Hti. pose proof (step_core_cpc _ _ _ _ H Hev) as Hcp.
-  constructor.
+  constructor; [| |eapply c_api_core; eauto].
   - intros j x' Hx'.
     destruct (step_core_inst_bwd _ _ _ _ H Hev j x' Hx') as [(x & Hx & L)|(Hnx & n & c & -> & Hc & ->)].
     + destruct (Hcp j x x' Hx Hx') as [[Ep|Hown] _].
@@ -267,9 +481,11 @@ Proof.
            ++ apply negb_false_iff in He. unfold excused in He. apply andb_true_iff in He. destruct He as [He _].
               apply andb_true_iff in He. destruct He as [He1 He2]. apply negb_true_iff in He2.
               right. right. left. auto.
-    + (* the new instance *) left. cbn in Hsd |- *. unfold escape_C03, byapi_of in Hesc. cbn [fst snd] in Hesc.
+    + (* the new instance *) left. cbn in Hsd |- *. unfold escape_C03, is_run in Hesc. cbn [fst snd] in Hesc.
+      pose proof (HP th) as Ha. unfold step_core, step_reg in H. break_step H. unfold creates in *.
       destruct (o_sd_done o) as [|k]; [lia|]. cbn in Hesc.
-      destruct (get th (o_api o)) as [[]|]; cbn in Hesc; try discriminate; cbn; now rewrite N.eqb_refl.
+      destruct (apc (get_thread s th)); try discriminate; cbn in Ha;
+      destruct (get th (o_api o)) as [[]|]; cbn in Hesc, Ha; try discriminate; cbn; now rewrite N.eqb_refl.
 Qed.
 
 (* ---- one step --------------------------------------------------------------------------------------------------------- *)
@@ -294,7 +510,7 @@ Qed.
 Lemma mon_core s o th e s' : Rc cs s o -> Inv s o -> Inv2 s o -> step_core s th e = Some s' ->
   escape_C03 o (th, e) = false -> mon_C03 cs o (th, e) = true.
 Proof.
-  intros HRc HI [HB HA] H Hesc. unfold mon_C03. cbn [fst snd].
+  intros HRc HI [HB HA HP] H Hesc. unfold mon_C03. cbn [fst snd].
   destruct e; try reflexivity; try (destruct (ev_inst o th _); reflexivity).
   - (* ELaunch *)
     destruct ok; [|try reflexivity; cbn; destruct (get th (o_th o)); reflexivity].
